@@ -37,6 +37,16 @@ def hs_inputs(tier, rng):
              b"HTTP/1.1 101 " + b"A" * 70000 + b"\r\n\r\n", b"A" * 5000]
     for l in lines:
         yield l
+    # rejected handshakes whose body is "chunked" with peer-declared chunk sizes (no read may be sized by them)
+    for size in (b"ffff", b"10000", b"7fffffff", b"ffffffffffffffff", b"-1", b"zz", b""):
+        for st in (b"400 Bad", b"503 Busy", b"200 OK"):
+            yield b"HTTP/1.1 " + st + b"\r\nTransfer-Encoding: chunked\r\n\r\n" + size + b"\r\nbody"
+            yield b"HTTP/1.1 " + st + b"\r\nTransfer-Encoding: gzip, chunked\r\nContent-Length: x\r\n\r\n" + size + b";ext=1\r\n" + b"b" * 40 + b"\r\n0\r\n\r\n"
+    # cookie names made of every printable ASCII character (http.cookies refuses several), in an otherwise valid upgrade response
+    for ch in range(0x21, 0x7F):
+        yield GOOD.replace(b"\r\n\r\n", b"\r\nSet-Cookie: a" + bytes([ch]) + b"b=1; Domain=x.test\r\n\r\n")
+    for v in (b"a=1; Domain=x.test; Expires=zzz", b"a=1; Max-Age=x; Domain=x.test", b"a=\"unterminated; Domain=x.test", b"; ; =; Domain=x", b"a=1; Domain=x.test; Secure=what; HttpOnly=1"):
+        yield GOOD.replace(b"\r\n\r\n", b"\r\nSet-Cookie: " + v + b"\r\n\r\n")
     # well-formed UTF-8 that Python's str methods treat specially: digits that are not decimal (isdigit/int disagree), decimal digits of
     # other scripts (int() accepts them), Unicode spaces and line separators (strip/split/splitlines), case-folding oddities
     uni = ["²", "¹⁰¹", "①②", "١٠١", "１０１", "१०१", "\u00a0", "\u2028", "\u0085", "\u3000", "ſ", "İ", "ß", "K", "\u200b", "\ufeff", "\U0001d7cf"]
